@@ -546,7 +546,9 @@ def unpack_collections(*args, traverse=True):
 
     def _unpack(expr):
         if is_dask_collection(expr):
-            tok = tokenize(expr)
+            # Collections of different types can share a token (a bag Item and
+            # its ``to_delayed()``); each must come back as its own type
+            tok = tokenize(type(expr), expr)
             if tok not in repack_dsk:
                 repack_dsk[tok] = Task(
                     tok, getitem, TaskRef(collections_token), len(collections)
